@@ -17,13 +17,16 @@ func init() {
 		Title: "BEP 42 node-ID security is computed exactly as specified",
 		Decided: "C17.1 writer/reader agreement: SecureNodeId writes and NodeIdSecure compares exactly the (byte, mask, CRC shift) triples {(0,0xff,24),(1,0xff,16),(2,0xf8,8)} = 21 bits; the writer keeps id[2]&7 and stores to no other byte; " +
 			"C17.2 same CRC input on both sides: crcIP(ip, id[19]); in crcIP the IPv4 form is chosen by To4() ≠ nil, the address is masked with the BEP 42 constants (03 0f 3f ff / 01 03 07 0f 1f 3f 7f ff), the seed is rand&7 shifted into the top three bits of byte 0, and CRC32-C (Castagnoli) runs over exactly the masked prefix ip[:len(mask)]; " +
-			"C17.3 exemption and self-securing: NodeIdSecure returns true for local addresses before any comparison; the exemption covers 10/8, 172.16/12, 192.168/16, link-local and loopback and nothing else (every true answer of isLocalNetwork carries one of them as a positive fact); InitNodeId secures a freshly generated ID whenever a public IP is configured and (the ID is derived from the listen address, or security is not disabled); MakeDeterministicNodeID secures with the IP of the address it hashed.",
+			"C17.3 exemption and self-securing: NodeIdSecure returns true for local addresses before any comparison; the exemption covers 10/8, 172.16/12, 192.168/16, link-local and loopback and nothing else (every true answer of isLocalNetwork carries one of them as a positive fact); InitNodeId secures a freshly generated ID whenever a public IP is configured and (the ID is derived from the listen address, or security is not disabled); MakeDeterministicNodeID secures with the IP of the address it hashed. " +
+			"C17.4 every << and >> in crcIP / SecureNodeId / NodeIdSecure (and helpers) moves its operand by a per-path constant smaller than the operand's width, so no seed, mask or CRC bit is silently shifted out; C17.5 the BEP 42 functions write address bytes only in a private copy (shared with C08.8).",
 		NotDecided: "CRC32-C values and exhaustive agreement with an independent BEP 42 implementation over all addresses (value level); idempotence as a statement about all inputs (it follows from C17.1: the CRC input excludes the bits written).",
 		Assume:     []string{"hash/crc32 implements CRC32-C for the Castagnoli table"},
 		Rules: []*Rule{
 			{ID: "C17.1", Doc: "21 bits: writer and reader agree on bytes, masks and shifts", Floor: 8, Run: c17r1},
 			{ID: "C17.2", Doc: "CRC input: masks, seed, prefix length, polynomial", Floor: 7, Run: c17r2},
 			{ID: "C17.3", Doc: "local-network exemption; self-generated IDs are secured", Floor: 6, Run: c17r3},
+			{ID: "C17.4", Doc: "no seed, mask or CRC bit is shifted out: every shift in the BEP 42 functions moves its operand by less than the operand's width on every path", Floor: 4, Run: c17r4},
+			{ID: "C17.5", Doc: "the address a node ID is checked against is not altered by the computation (shared with C08.8): the exemption test and the CRC see the address the caller passed", Floor: 1, Run: c08r8},
 		},
 	})
 }
@@ -118,11 +121,27 @@ func c17r1(w *World, rr *RuleRun) {
 	idR := w.ParamTerm(ver, "id")
 	var crcArgsR []*Term
 	nTrue := 0
+	// the result may be a constant per path (if-chain form) or the value of a short-circuit
+	// expression (FF-r4): each exit state is split by assuming the result true / false
+	type exitAlt struct {
+		ret *ssa.Return
+		alt *Alt
+	}
+	var trues, falses []exitAlt
 	for _, ex := range ff.exits {
 		for _, alt := range ex.st {
-			if !w.FE.Resolve(alt, ex.ret.Results[0]).IsConst("true") {
-				continue
+			t := w.FE.Resolve(alt, ex.ret.Results[0])
+			for _, a := range w.FE.assume(alt.clone(), t, true, 0) {
+				trues = append(trues, exitAlt{ex.ret, a})
 			}
+			for _, a := range w.FE.assume(alt.clone(), t, false, 0) {
+				falses = append(falses, exitAlt{ex.ret, a})
+			}
+		}
+	}
+	for _, ea := range trues {
+		{
+			ex, alt := ea, ea.alt
 			if alt.Has("b", true, func(x *Term) bool { return x.Op == OpCall && suffixName(x) == "isLocalNetwork" }) {
 				continue
 			}
@@ -161,11 +180,9 @@ func c17r1(w *World, rr *RuleRun) {
 		rr.Oblige(shortFuncName(ver), "NodeIdSecure has an accepting path for non-local addresses", w.P.Pos(ver.Pos()), false, "")
 	}
 	// every rejecting path (false) is caused by one of the compares failing
-	for _, ex := range ff.exits {
-		for _, alt := range ex.st {
-			if !w.FE.Resolve(alt, ex.ret.Results[0]).IsConst("false") {
-				continue
-			}
+	for _, ea := range falses {
+		{
+			ex, alt := ea, ea.alt
 			ok := alt.Has("b", false, func(x *Term) bool {
 				if x.Op != OpBin || x.Name != "==" {
 					return false
@@ -863,4 +880,90 @@ func (w *World) netsTableForm(fn *ssa.Function) ([]string, bool) {
 		}
 	})
 	return out, ok && nStores == 1
+}
+
+// c17r4: shift widths. In Go a shift by at least the operand's width yields 0 (or the sign), silently:
+// `uint32(seed) << 61` drops the seed, `crc >> 32` compares against 0. For every << and >> in crcIP,
+// SecureNodeId, NodeIdSecure (and helpers folded into them) the amount, resolved on every path
+// (constants, + - *, per-path values of phis), must be a constant smaller than the width of the
+// shifted operand. An amount that does not resolve to a constant is listed, not judged.
+func c17r4(w *World, rr *RuleRun) {
+	var evalInt func(t *Term) (int64, bool)
+	evalInt = func(t *Term) (int64, bool) {
+		if t == nil {
+			return 0, false
+		}
+		if c, ok := constOf(t); ok {
+			return c, true
+		}
+		switch t.Op {
+		case OpConv:
+			if len(t.Args) == 1 {
+				return evalInt(t.Args[0])
+			}
+		case OpBin:
+			if len(t.Args) != 2 {
+				return 0, false
+			}
+			a, okA := evalInt(t.Args[0])
+			b, okB := evalInt(t.Args[1])
+			if !okA || !okB {
+				return 0, false
+			}
+			switch t.Name {
+			case "+":
+				return a + b, true
+			case "-":
+				return a - b, true
+			case "*":
+				return a * b, true
+			}
+		}
+		return 0, false
+	}
+	var fns []*ssa.Function
+	seen := map[*ssa.Function]bool{}
+	for _, name := range []string{"crcIP", "SecureNodeId", "NodeIdSecure"} {
+		for _, f := range w.regionFuncs(w.P.Func(name)) {
+			if !seen[f] {
+				seen[f] = true
+				fns = append(fns, f)
+			}
+		}
+	}
+	// module helpers called from them (mask tables and the like)
+	for i := 0; i < len(fns); i++ {
+		eachInstr([]*ssa.Function{fns[i]}, func(_ *ssa.Function, ins ssa.Instruction) {
+			if c := callInstrCommon(ins); c != nil && !c.IsInvoke() {
+				if g := c.StaticCallee(); g != nil && w.P.IsLib(g) && len(g.Blocks) > 0 && !seen[g] && g.Pkg == fns[0].Pkg {
+					seen[g] = true
+					fns = append(fns, g)
+				}
+			}
+		})
+	}
+	sizes := types.SizesFor("gc", "amd64")
+	eachInstr(fns, func(fn *ssa.Function, ins ssa.Instruction) {
+		bo, ok := ins.(*ssa.BinOp)
+		if !ok || (bo.Op != token.SHL && bo.Op != token.SHR) {
+			return
+		}
+		xb, isB := bo.X.Type().Underlying().(*types.Basic)
+		if !isB || xb.Info()&types.IsInteger == 0 || xb.Info()&types.IsUntyped != 0 {
+			return
+		}
+		width := sizes.Sizeof(bo.X.Type()) * 8
+		construct := fmt.Sprintf("shift %s %s … by less than %d bits", w.TS.Of(bo.X).String(), bo.Op, width)
+		w.Require(rr, ins, trunc(construct, 160), func(alt *Alt) (bool, string) {
+			amt := w.FE.Resolve(alt, bo.Y)
+			c, isK := evalInt(amt)
+			if !isK {
+				return true, "amount " + trunc(amt.String(), 80) + " not constant on this path (not judged)"
+			}
+			if c < 0 || c >= width {
+				return false, fmt.Sprintf("a %d-bit operand is shifted by %d: every bit is lost", width, c)
+			}
+			return true, fmt.Sprintf("by %d", c)
+		})
+	})
 }
